@@ -172,6 +172,32 @@ pub fn run(args: &[String]) -> i32 {
         }
         check("reference password-mode writer and scrypt == pinned release on 3 seeded files", ok);
     }
+    if what == "determinism" {
+        // ksim selftest determinism [family] [count]: every base scenario twice, hashes must agree
+        let only = args.get(1).cloned();
+        let count: u64 = args.get(2).and_then(|c| c.parse().ok()).unwrap_or(200);
+        for f in crate::families() {
+            if only.as_deref().map(|o| o != f.name() && o != "all").unwrap_or(false) {
+                continue;
+            }
+            let mut bad = 0;
+            for idx in 0..count {
+                let a = f.run_index(crate::DEFAULT_SEED, crate::engine::Tier::Quick, idx);
+                let b = f.run_index(crate::DEFAULT_SEED, crate::engine::Tier::Quick, idx);
+                for (k, (x, y)) in a.iter().zip(b.iter()).enumerate() {
+                    if x.1 != y.1 && bad < 3 {
+                        bad += 1;
+                        println!("NONDETERMINISTIC family {} run_index {} sub {}: {:016x} vs {:016x}\n  scenario {}", f.name(), idx, k, x.1, y.1, x.0);
+                    }
+                }
+                if a.len() != b.len() {
+                    bad += 1;
+                    println!("NONDETERMINISTIC family {} run_index {}: {} vs {} executions", f.name(), idx, a.len(), b.len());
+                }
+            }
+            check(&format!("determinism of family {} over {} base scenarios run twice", f.name(), count), bad == 0);
+        }
+    }
     if fails > 0 {
         eprintln!("harness error: {} selftest(s) failed: the trusted base is not trustworthy", fails);
         return 2;
